@@ -245,7 +245,7 @@ def trace_validation(ctx, lib, env, thorough):
         return {}
     exe, _ = ctx.build_harness("ojson_driver", ["ojson_driver.cpp"])
     log = os.path.join(ctx.tmp, "ojson-trace.ndjson")
-    n_hist, n_ops = (200, 60) if thorough else (40, 30)
+    n_hist, n_ops = (200, 60) if thorough else (25, 30)
     rc, out = sh([exe, log, str(ctx.seed), str(n_hist), str(n_ops)], timeout=900, env=env)
     if rc != 0:
         ctx.mismatch("driver:crash", "the random driver crashed (rc=%d): %s" % (rc, out[-1500:]), None)
